@@ -533,7 +533,7 @@ func init() {
 	engine.Register(engine.Spec[Case]{
 		ID:    "C11",
 		Level: "exploration",
-		Rule: "(1) totality under a fuel budget: every statement/declaration derivation within 2 (quick) / 3 (thorough) deviations, every single-site replacement of an expression atom by each of 10 atom kinds (ill-typed mutants) in every derivation within 1 deviation, special programs, functional subroutines with 0-2 parameters called with 0-3 arguments, and all 12288 include graphs over modules {main, a, b} where each file includes any subset of {a, b, itself, missing} at root level or inside a subroutine; each linted twice (repeat determinism). (2) determinism over Go's randomised map iteration: the instrumented build routes every range-over-map loop of linter and linter/context (found by go/types at build time) through a seam; for 20 programs with 2-3 entities per map and call graphs with cycles, every permutation at every dynamic loop execution is explored with at most 2 loop executions deviating from natural order. (3) all permutations of the declarations of 9 four-declaration programs (call cycles, duplicates, per-subroutine goto labels and locals incl. functional subroutines). Oracles: no panic, no fuel exhaustion, identical diagnostic multisets (with locations for 1 and 2, without for 3). non-trivial = non-empty program / more than one order explored / non-identity permutation; distinct = distinct case Round 3: 3 programs whose subroutine scope is the union of 3-6 callers' scopes (map-order family), 51 regex literals that end inside a group / class / quantifier / escape x 8 places a pattern is looked at (totality family); maps with more than 4 keys are iterated in 2n orders (natural, reversed, rotations, reversed rotations), not n!.",
+		Rule: "(1) totality under a fuel budget: every statement/declaration derivation within 2 (quick) / 3 (thorough) deviations, every single-site replacement of an expression atom by each of 10 atom kinds (ill-typed mutants) in every derivation within 1 deviation, special programs, functional subroutines with 0-2 parameters called with 0-3 arguments, and all 12288 include graphs over modules {main, a, b} where each file includes any subset of {a, b, itself, missing} at root level or inside a subroutine; each linted twice (repeat determinism). (2) determinism over Go's randomised map iteration: the instrumented build routes every range-over-map loop of linter and linter/context (found by go/types at build time) through a seam; for 20 programs with 2-3 entities per map and call graphs with cycles, every permutation at every dynamic loop execution is explored with at most 2 loop executions deviating from natural order. (3) all permutations of the declarations of 9 four-declaration programs (call cycles, duplicates, per-subroutine goto labels and locals incl. functional subroutines). Oracles: no panic, no fuel exhaustion, identical diagnostic multisets (with locations for 1 and 2, without for 3). non-trivial = non-empty program / more than one order explored / non-identity permutation; distinct = distinct case Round 3: 3 programs whose subroutine scope is the union of 3-6 callers' scopes (map-order family), 51 regex literals that end inside a group / class / quantifier / escape x 8 places a pattern is looked at (totality family); maps with more than 4 keys are iterated in 2n orders (natural, reversed, rotations, reversed rotations), not n!. Round 4: two permuted programs with capture-group state (a functional subroutine reading re.group.N next to subroutines that match with groups); the include graphs have a third placement (inside an if block of a subroutine / of a statement module).",
 		Gen:  gen11,
 		Key: func(c Case) string {
 			ks := make([]string, 0, len(c.Modules))
